@@ -19,6 +19,7 @@ patch = os.path.join(mdir, "patch.diff")
 meta = {"seed_id": sid, "property": prop, "source_dir": mdir}
 # --- 1. scratch verification
 sh("git checkout -- . && rm -rf tests", cwd=WT)
+sh("git checkout -q --detach $(git -C /repo rev-parse HEAD)", cwd=WT)
 rc, out = sh("git apply %s" % patch, cwd=WT)
 meta["applies"] = rc == 0
 if rc != 0:
